@@ -56,7 +56,7 @@ handshake exists (`started` lists the entries created so far in this call of con
 def getOrHandshake {κ : Type} (env : Env κ) (started : List Addr) (a : Addr) : Option κ × List Addr :=
   match env.hosts a with
   | some h => (some h, started)
-  | none => (none, if env.pending a || started.contains a then started else started ++ [a])
+  | none => (none, if env.pending a || started.any (fun x => decide (x = a)) then started else started ++ [a])
 
 /-- `routing.BalancePacket` over gateways whose buckets were calculated (`CalculateBucketsForGateways`), as
 `RoutesFor` hands them out. `none` = a panic inside the routing package (zero total weight). -/
